@@ -108,6 +108,87 @@ fn error_path_sweep(_rep: &Arc<Reporter>, args: &Args) -> u64 {
     n
 }
 
+/// Requests through the real SOCKS5 forwarder (TCP CONNECT, UDP ASSOCIATE for `_udp2`, plain HTTP) against a permissive
+/// scripted SOCKS5 server: the upstream path formats connection metadata and relayed credentials of its own.
+fn socks5_paths(args: &Args) -> u64 {
+    use tokio::io::{AsyncReadExt, AsyncWriteExt};
+    let dir = env::work_dir(&args.root, "c20");
+    let rt = env::rt_current();
+    let mut n = 0u64;
+    rt.block_on(async {
+        let listener = tokio::net::TcpListener::bind("127.0.0.1:0").await.unwrap();
+        let addr = listener.local_addr().unwrap();
+        let relay = tokio::net::UdpSocket::bind("127.0.0.1:0").await.unwrap();
+        let relay_port = relay.local_addr().unwrap().port();
+        tokio::spawn(async move { let mut b = vec![0u8; 65536]; loop { if let Ok((k, from)) = relay.recv_from(&mut b).await { let _ = relay.send_to(&b[..k], from).await; } } });
+        tokio::spawn(async move {
+            loop {
+                let Ok((mut s, _)) = listener.accept().await else { continue };
+                tokio::spawn(async move {
+                    let mut b = [0u8; 2];
+                    if s.read_exact(&mut b).await.is_err() { return; }
+                    let mut m = vec![0u8; b[1] as usize];
+                    if s.read_exact(&mut m).await.is_err() { return; }
+                    // prefer an authenticating method when one is offered
+                    let method = if m.contains(&2) { 2 } else if m.contains(&0x80) { 0x80 } else { 0 };
+                    let _ = s.write_all(&[5, method]).await;
+                    if method == 2 {
+                        let mut h = [0u8; 2];
+                        if s.read_exact(&mut h).await.is_err() { return; }
+                        let mut u = vec![0u8; h[1] as usize];
+                        let _ = s.read_exact(&mut u).await;
+                        let mut l = [0u8; 1];
+                        let _ = s.read_exact(&mut l).await;
+                        let mut p = vec![0u8; l[0] as usize];
+                        let _ = s.read_exact(&mut p).await;
+                        let _ = s.write_all(&[1, 0]).await;
+                    } else if method == 0x80 {
+                        // extended authentication: read what arrives within a moment, then accept
+                        let mut junk = [0u8; 2048];
+                        let _ = tokio::time::timeout(Duration::from_millis(100), s.read(&mut junk)).await;
+                        let _ = s.write_all(&[1, 0]).await;
+                    }
+                    let mut h = [0u8; 4];
+                    if s.read_exact(&mut h).await.is_err() { return; }
+                    let alen = match h[3] { 1 => 4, 4 => 16, _ => { let mut l = [0u8; 1]; let _ = s.read_exact(&mut l).await; l[0] as usize } };
+                    let mut rest = vec![0u8; alen + 2];
+                    let _ = s.read_exact(&mut rest).await;
+                    let _ = s.write_all(&[5, 0, 0, 1, 127, 0, 0, 1, (relay_port >> 8) as u8, relay_port as u8]).await;
+                    let mut buf = [0u8; 4096];
+                    loop { match s.read(&mut buf).await { Ok(k) if k > 0 => { let _ = s.write_all(b"HTTP/1.1 200 OK\r\nContent-Length: 0\r\n\r\n").await; } _ => break } }
+                });
+            }
+        });
+        let ctx = Arc::new(env::make_ctx(&dir, env::CtxOpts {
+            clients: vec![("dave-CANARYU9".into(), "pw-CANARYP9".into())],
+            registry_authenticator: true,
+            tweak: Some(Box::new(move |b| b.forwarder_settings(trusttunnel::settings::ForwardProtocolSettings::Socks5(
+                trusttunnel::settings::Socks5ForwarderSettings::builder().server_address(addr).unwrap().build().unwrap())))),
+            ..Default::default()
+        }));
+        let ok = format!("Basic {}", basic("dave-CANARYU9", "pw-CANARYP9"));
+        for proto in [Proto::H1, Proto::H2] {
+            for sni in ["main.test", "tok-CANARYSNI.main.test"] {
+                for (method, target) in [("CONNECT", "dest.example.org:443"), ("CONNECT", "_udp2"), ("CONNECT", "_check"), ("GET", "http://origin.dest.test/p"), ("POST", "http://origin.dest.test/submit")] {
+                    for with_auth in [true, false] {
+                        n += 1;
+                        let mut req = Req::new(method, target);
+                        if method == "CONNECT" { req.end_stream = false; }
+                        if method == "POST" { req = req.header("content-length", b"0"); }
+                        if with_auth { req = req.header("proxy-authorization", ok.as_bytes()); }
+                        let how = How::Tunnel(Fwd::Real, Policy::Default);
+                        match proto {
+                            Proto::H1 => { h1_roundtrip(&ctx, how, sni, &req, Duration::from_millis(500), 80_000 + n).await; }
+                            _ => { h2_session(&ctx, how, sni, std::slice::from_ref(&req), Duration::from_millis(700), 80_000 + n).await; }
+                        }
+                    }
+                }
+            }
+        }
+    });
+    n
+}
+
 pub fn run(args: &Args) -> i32 {
     let rep = Arc::new(Reporter::new(
         args,
@@ -118,7 +199,7 @@ pub fn run(args: &Args) -> i32 {
          distinct_nontrivial = distinct normalised record templates seen.",
     ));
     rep.assume("records whose target is the client-side TLS/HTTP stack of the harness itself are excluded; a record counts as emitted iff the endpoint's own logger (trusttunnel::log_utils::StdoutLogger::enabled at max level Trace) accepts it");
-    rep.assume("scenarios are those of C01/C10/C18/C08, the C05 L2 scenarios (real TLS front end with an SNI credentials label) and the error-path sweep");
+    rep.assume("scenarios are those of C01/C10/C18/C08, the C05 L2 scenarios (real TLS front end with an SNI credentials label), the error-path sweep and the SOCKS5 upstream path (real Socks5Forwarder against a permissive scripted server)");
     logcap::install(true);
     secrets::set_extra_headers(vec![
         ("authorization".into(), secrets::AUTHZ.as_bytes().to_vec()),
@@ -142,14 +223,16 @@ pub fn run(args: &Args) -> i32 {
     let rounds = args.qt(1u64, 12u64);
     for round in 0..rounds {
         let quick_args = Args { tier: crate::common::report::Tier::Quick, seed: args.seed.wrapping_add(round * 7919), ..args.clone() };
-        for set in 0..5 {
+        for set in 0..6 {
             match set {
                 0 => crate::props::c01::scenarios(&scratch, &quick_args),
                 1 => crate::props::c10::scenarios(&scratch, &quick_args),
                 2 => crate::props::c18::run_all(&scratch, &quick_args),
                 // real TLS front end (Core::listen): SNI-borne credentials label, every host class, refused handshakes
                 3 => crate::props::c05_l2::run_l2(&scratch, &quick_args),
-                _ => { if round == 0 { swept = error_path_sweep(&rep, args); } }
+                4 => { if round == 0 { swept = error_path_sweep(&rep, args); } }
+                // the SOCKS5 upstream path (TCP CONNECT, UDP ASSOCIATE, plain HTTP) with credentials and an SNI credentials label
+                _ => { if round == 0 { swept += socks5_paths(args); } }
             }
             scenarios += 1;
             // ---- scan what this set logged
